@@ -200,18 +200,16 @@ func (ch *Channel) runWriter(writerTerminate chan struct{}) error {
 		select {
 		case what := <-ch.chWrite:
 			verifPoint("wr.write", ch)
+			// a write that fails (item that cannot be encoded for this link, transport error)
+			// must not terminate the writer routine: nobody would notice, and the channel would
+			// stay open while silently discarding every further write.
+			// The item is dropped; a broken transport is detected and reported by the reader routine.
 			switch wh := what.(type) {
 			case message.Message:
-				err := ch.streamWriter.Write(wh)
-				if err != nil {
-					return err
-				}
+				ch.streamWriter.Write(wh) //nolint:errcheck
 
 			case frame.Frame:
-				err := ch.frameWriter.Write(wh)
-				if err != nil {
-					return err
-				}
+				ch.frameWriter.Write(wh) //nolint:errcheck
 			}
 
 		case <-writerTerminate:
